@@ -51,6 +51,7 @@ class Run:
         try: self.seed = int(seed if seed is not None else os.environ.get('VERIF_SEED', '0'))
         except ValueError: self.seed = 0
         self.t0 = time.time()
+        self.pid = os.getpid()
         self.tmp = tempfile.mkdtemp(prefix='xrlv_%s_' % prop)
         atexit.register(self.cleanup)
         self.obs = []; self.lock = threading.Lock()
@@ -81,6 +82,7 @@ class Run:
                 '-DHAVE_CONFIG_H', '-D_GNU_SOURCE', '-DXRL_VERIF']
 
     def cleanup(self):
+        if os.getpid() != self.pid: return      # forked worker: the scratch dir belongs to the parent
         for p in list(self.procs):
             try: os.killpg(p.pid, signal.SIGKILL)
             except Exception: pass
